@@ -153,15 +153,22 @@ class Injector:
 
         class PFile:
             def __init__(self, f, name):
-                self._f, self._name, self._closed = f, name, False
+                self._f, self._name, self._closed, self._pending = f, name, False, None
+
+            def _emit(self, part):
+                # like a buffered file, the disk lags behind the program: what write() was given reaches the file
+                # with the next primitive (the next write or the close) -- so a rename that comes before the close
+                # is seen to publish an incomplete document
+                if self._pending is not None:
+                    self._f.write(self._pending)
+                    self._f.flush()
+                self._pending = part
 
             def write(self, s):
                 h = len(s) // 2
-                self._f.write(s[:h])
-                self._f.flush()
+                self._emit(s[:h])
                 inj.tick("write", self._name)
-                self._f.write(s[h:])
-                self._f.flush()
+                self._emit(s[h:])
                 inj.tick("write", self._name)
                 return len(s)
 
@@ -169,9 +176,14 @@ class Injector:
                 for l in lines:
                     self.write(l)
 
+            def flush(self):
+                self._emit(None)
+                self._f.flush()
+
             def _close(self):
                 if not self._closed:
                     self._closed = True
+                    self._emit(None)
                     self._f.close()
                     inj.tick("close", self._name)
 
